@@ -1,7 +1,7 @@
 (* Property C05: a critical failure aborts at once: nothing new starts, running jobs are cancelled.
    Only property theorems here. Model R; level 0 unless stated. *)
 From AJ Require Import Common.Util Run.RModel Run.RFacts Run.RFacts2 Run.RInv Run.RInv4 Run.RInv5 Run.RMon Run.RProps1
-  Run.RProps2 Run.RProps3 Props.RExample.
+  Run.RProps2 Run.RProps3 Props.RExample Run.RWin Run.RProps4 Run.RShut1 Run.RShut2 Run.RTime Run.RProps5.
 
 (* The main wake that reports the failed critical job leaves the loop with the critical path; in
    the state after it every job of the scheduler that is still pending (running, or queued for a
@@ -64,10 +64,14 @@ Proof.
 Qed.
 Print Assumptions C05_accepted_histories.
 
-(* Not proved as a theorem (checked on every implementation history by acceptance at level 3): the
-   run ends exactly when the cancellations and the shutdown phase are over -- its length is
-   min(longest handler, shutdown_timeout). *)
-Definition C05_end_time_full_statement : Prop :=
-  forall c h s n, wf c = true -> Reach 3 c h s -> j_sched (jc c n) = true ->
-    (exists w, ph (Rn s n) = PShut w) ->
-    match sdl (Sd s n) with Some d => (now s <= d)%N | None => True end.
+(* end time: after the cancellations the run goes through its shutdown phase, whose wait never
+   outlasts shutdown_timeout (level 3) *)
+Theorem C05_shutdown_bounded : forall lvl c h s n, wf c = true -> 3 <= lvl -> Reach lvl c h s ->
+  sp (Sd s n) = SdWait -> dl_ok s (sdl (Sd s n)).
+Proof. intros lvl c h s n W Hl Hr. apply (t_sd c s (InvT3_reach lvl c h s W Hl Hr)). Qed.
+Print Assumptions C05_shutdown_bounded.
+
+(* Not proved: that the tidy phases (waiting for the cancelled tasks, cancelling the straggling
+   handlers) take no time when the jobs honour cancellation at once; acceptance at level 3
+   enforces it on every implementation history (a clock jump needs a quiescent model state). *)
+
